@@ -234,6 +234,16 @@ def _check_merchant_migration(config: dict, config_dir: str, quiet: bool = False
 
     # New .rules format
     if merchants_format == 'new':
+        # get_all_rules() swallows loader errors and returns no rules; a rules file that
+        # cannot be loaded must be reported, not silently treated as empty.
+        from pathlib import Path
+        from .merchant_engine import load_merchants_file, MerchantParseError
+        try:
+            load_merchants_file(Path(merchants_file), match_mode=rule_mode)
+        except MerchantParseError as e:
+            print(f"Error: could not load {merchants_file}: {e}", file=sys.stderr)
+            print("Fix the rules file and run again ('tally diag' shows details).", file=sys.stderr)
+            sys.exit(1)
         rules = get_all_rules(merchants_file, match_mode=rule_mode)
         if not quiet:
             print(f"Loaded {len(rules)} categorization rules from {merchants_file}")
